@@ -7,7 +7,8 @@ from rules.shared import SPEC
 EXPLANATION = ("Mapping tables From<quinn::WriteError>, From<quinn::ReadError>, QuicSendStream::stopped / finish, QuicRecvStream::read / "
                "read_exact extracted from MIR on every path and compared with the reference rows (code payload passes through varint_q2w); "
                "varint_q2w / varint_w2q / streamid_q2w pass `into_inner()` unchanged into the other crate's from_u64_unchecked and both "
-               "VarInt::MAX constants are 2^62-1; reset/stop of SendStream, RecvStream and their Quic* inner types delegate with w2q(code).")
+               "VarInt::MAX constants are 2^62-1; reset/stop of SendStream, RecvStream and their Quic* inner types delegate with w2q(code)."
+               " C06-R7 (all written bytes, then end-of-stream): the write/read wrappers pass buffers and counts unchanged, write_all is quinn's write_all, and every tokio AsyncWrite/AsyncRead method forwards to the same method of the wrapped stream (AsyncWriteExt::shutdown -> poll_shutdown is what sends the FIN).")
 NOT_DECIDED = ["quinn's delivery of RESET_STREAM / STOP_SENDING and the acknowledgement semantics of finish()"]
 TRUSTED = ["rustc MIR (resolved callees)", "quinn::VarInt invariant < 2^62", "quinn stream API semantics"]
 
@@ -147,3 +148,5 @@ def run(ctx):
         f = A.find1(r"^wtransport::stream::RecvStream::%s::\{closure#0\}$" % nm)
         sg = [path_sig(p)[1] for p in nonpanic(walk(f))]
         ctx.check("C06-R3", "RecvStream::%s" % nm, sg == ["return await(%s)" % inner], "RecvStream::%s does not delegate unchanged: %s" % (nm, sg), where(f))
+    ctx.rule("C06-R7", "a finished stream yields all written bytes and then end-of-stream: write_all is quinn's write_all, every tokio poll_* (poll_shutdown = FIN) forwards to the same method")
+    shared.stream_io_delegation(ctx, "C06-R7")
